@@ -150,24 +150,22 @@ TAILSTUBS = ["janet_fiber_setcapacity:fib_realloc_stub", "janet_tuple_n:fib_tupl
 TAILCHK = ["bounds-check", "pointer-check", "signed-overflow-check"]
 TAILCLAUSE = ("janet_fiber_funcframe_tail: arity mismatch refused and nothing changes; on success fiber->frame is kept, argument k arrives unchanged in parameter slot k, "
               "missing parameters and all other new frame slots are nil, header names the callee and keeps the caller link; no access outside the live stack block")
-U(id="fib.funcframe_tail", **{"class": "bounded"}, tier="thorough", mem_gb=40, bound="stack of at most 10 slots (at most 2 arguments), callee slot count at most 5 (loops unwound with unwinding assertions); realloc modelled faithfully (old block freed); "
-  "this unit leaves out calls that take the second reallocation in the variadic branch (they are covered by fib.funcframe_tail.regrow)",
-  clause=TAILCLAUSE, src=["fiber.c"], link=["wrap.c"], link_keep={"wrap.c": ["janet_nanbox_from_bits"]}, harness=["fib_frame_tail.c"], entry="h_funcframe_tail_b", mode="plain", defines=["-DFIB_NO_REGROW", "-DFIB_CAP=10"],
-  replace_calls=TAILSTUBS, functions=["janet_fiber_funcframe_tail"], checks=TAILCHK, unwind=12, unwinding_assertions=True, timeout=1500, cbmc=CADICAL, object_bits=8,
-  assumes=["janet_fiber_setcapacity behaves as realloc: new block with the old contents, old block freed", "janet_tuple_n / make_struct_n only read their argument range (asserted); janet_env_detach does not write the fiber",
-           "memmove moves whole slots through a temporary (stub asserts that source and destination lie in a live block)"],
-  mutants=[
+GEOMS = [(4, 8, 8), (4, 8, 9), (4, 8, 10), (4, 9, 9), (4, 9, 10), (4, 10, 10), (5, 9, 9), (5, 9, 10), (5, 10, 10), (6, 10, 10)]
+TAILMUT = [
     {"name": "nil-fill-starts-late", "file": "fiber.c", "find": "    for (i = fiber->frame + stacksize; i < nextframetop; ++i)", "replace": "    for (i = fiber->frame + stacksize + 1; i < nextframetop; ++i)", "expect": "nil"},
     {"name": "args-not-moved", "file": "fiber.c", "find": "    if (stacksize) memmove(stack, args, stacksize * sizeof(Janet));", "replace": "    if (stacksize > 1) memmove(stack, args, stacksize * sizeof(Janet));", "expect": "arrives unchanged"},
-    {"name": "arity-unchecked", "file": "fiber.c", "find": "    if (next_arity > func->def->max_arity) return 1;\n\n    if (fiber->capacity < nextstacktop) {\n        janet_fiber_setcapacity(fiber, 2 * nextstacktop);\n#ifdef JANET_DEBUG\n    } else {\n        janet_fiber_refresh_memory(fiber);\n#endif\n    }\n\n    Janet *stack", "replace": "    if (fiber->capacity < nextstacktop) {\n        janet_fiber_setcapacity(fiber, 2 * nextstacktop);\n    }\n\n    Janet *stack", "expect": "refused exactly"},
-  ])
-U(id="fib.funcframe_tail.regrow", **{"class": "bounded"}, tier="thorough", mem_gb=40, bound="stack of at most 10 slots, callee slot count at most 5 (the smallest bound in which the second reallocation is reachable)",
-    clause=TAILCLAUSE + " - including calls that regrow the stack for the rest slot", src=["fiber.c"], link=["wrap.c"], link_keep={"wrap.c": ["janet_nanbox_from_bits"]}, harness=["fib_frame_tail.c"], entry="h_funcframe_tail_b", mode="plain", defines=["-DFIB_CAP=10"],
-  replace_calls=TAILSTUBS, functions=["janet_fiber_funcframe_tail"], checks=TAILCHK, unwind=12, unwinding_assertions=True, timeout=1500, cbmc=CADICAL, object_bits=8,
-  assumes=["janet_fiber_setcapacity behaves as realloc: new block with the old contents, old block freed"],
-  mutants=[
-    {"name": "nil-fill-starts-late", "file": "fiber.c", "find": "    for (i = fiber->frame + stacksize; i < nextframetop; ++i)", "replace": "    for (i = fiber->frame + stacksize + 1; i < nextframetop; ++i)", "expect": "nil"},
-  ])
+    {"name": "missing-optionals-not-nil", "file": "fiber.c", "find": "            if (tuplehead >= fiber->capacity) janet_fiber_setcapacity(fiber, 2 * (tuplehead + 1));\n            for (i = fiber->stacktop; i < tuplehead; ++i) fiber->data[i] = janet_wrap_nil();\n", "replace": "            if (tuplehead >= fiber->capacity) janet_fiber_setcapacity(fiber, 2 * (tuplehead + 1));\n", "expect": "nil"},
+]
+for (gf, gs, gt) in GEOMS:
+    quick = (gf, gs, gt) in ((4, 8, 8), (4, 8, 9))
+    U(id="fib.funcframe_tail.g%d_%d_%d" % (gf, gs, gt), **{"class": "bounded"}, tier="quick" if quick else "thorough", mem_gb=6,
+      bound="stack block of at most 10 slots with the current frame at %d and the arguments at %d..%d (one unit per stack geometry; all 10 geometries that fit 10 slots are generated), callee slot count at most 5; loops unwound with unwinding assertions; realloc modelled faithfully (old block freed)" % (gf, gs, gt),
+      clause=TAILCLAUSE + " - including calls that regrow the stack for the rest slot", src=["fiber.c"], link=["wrap.c"], link_keep={"wrap.c": ["janet_nanbox_from_bits"]}, harness=["fib_frame_tail.c"], entry="h_funcframe_tail_b", mode="plain",
+      defines=["-DFIB_CAP=10", "-DFIB_FRAME=%d" % gf, "-DFIB_SS=%d" % gs, "-DFIB_TOP=%d" % gt],
+      replace_calls=TAILSTUBS, functions=["janet_fiber_funcframe_tail"], checks=TAILCHK, unwind=12, unwinding_assertions=True, timeout=900, cbmc=CADICAL, object_bits=8,
+      assumes=["janet_fiber_setcapacity behaves as realloc: new block with the old contents, old block freed", "janet_tuple_n / make_struct_n only read their argument range (asserted); janet_env_detach does not write the fiber",
+               "memmove moves whole slots through a temporary (stub asserts that source and destination lie in a live block)"],
+      mutants=TAILMUT if (gf, gs, gt) == (4, 8, 9) else [TAILMUT[0]])
 
 U(id="fib.first_value", **{"class": "full-domain"},
   clause="the value passed to the first resume of a new fiber arrives unchanged as its first parameter (bit for bit), as the one-element rest tuple when the function has only a rest parameter, "
